@@ -6,6 +6,8 @@ import (
 	"go/token"
 	"go/types"
 	"path/filepath"
+	"sort"
+	"strconv"
 	"strings"
 
 	"golang.org/x/tools/go/types/typeutil"
@@ -61,6 +63,25 @@ func readsOf(info *types.Info, v types.Object, node ast.Node) []string {
 		if _, isLit := n.(*ast.FuncLit); isLit {
 			return false
 		}
+		if call, ok := n.(*ast.CallExpr); ok && methodReads != nil {
+			// v.m(args) where m produces no text (no string result, no writer among its parameters): the fields m reads
+			// (computed from m's body) — `descriptor.Crc32()` reads the tag, not every field.
+			if sel, ok := call.Fun.(*ast.SelectorExpr); ok {
+				if id, ok := ast.Unparen(sel.X).(*ast.Ident); ok && info.Uses[id] == v {
+					if sl, isSel := info.Selections[sel]; isSel && sl.Kind() == types.MethodVal {
+						if callee, _ := sl.Obj().(*types.Func); callee != nil && !producesText(callee) {
+							if fs, ok := methodReads(callee); ok {
+								out = append(out, fs...)
+								for _, a := range call.Args {
+									out = append(out, readsOf(info, v, a)...)
+								}
+								return false
+							}
+						}
+					}
+				}
+			}
+		}
 		if id, ok := n.(*ast.Ident); ok && info.Uses[id] == v {
 			out = append(out, "*") // the value as a whole (passed on, or the receiver of a method call): every field
 			return true
@@ -78,6 +99,60 @@ func readsOf(info *types.Info, v types.Object, node ast.Node) []string {
 		return true
 	})
 	return out
+}
+
+// methodReads resolves the receiver fields a same-package method reads (installed by installMethodReads).
+var methodReads func(fn *types.Func) ([]string, bool)
+
+func producesText(fn *types.Func) bool {
+	sig := fn.Type().(*types.Signature)
+	for i := 0; i < sig.Results().Len(); i++ {
+		if isStringType(sig.Results().At(i).Type()) {
+			return true
+		}
+	}
+	for i := 0; i < sig.Params().Len(); i++ {
+		ts := sig.Params().At(i).Type().String()
+		if strings.Contains(ts, "Writer") || strings.Contains(ts, "Builder") || strings.Contains(ts, "Buffer") {
+			return true
+		}
+	}
+	return false
+}
+
+func installMethodReads(r *repoCtx) {
+	byObj := map[*types.Func]*FuncInfo{}
+	for _, fi := range r.funcs {
+		byObj[fi.Obj] = fi
+	}
+	memo := map[*types.Func][]string{}
+	busy := map[*types.Func]bool{}
+	methodReads = func(fn *types.Func) ([]string, bool) {
+		if m, ok := memo[fn]; ok {
+			return m, true
+		}
+		fi := byObj[fn]
+		if fi == nil || busy[fn] || fi.Decl.Body == nil || fi.Decl.Recv == nil || len(fi.Decl.Recv.List) != 1 || len(fi.Decl.Recv.List[0].Names) != 1 {
+			return nil, false
+		}
+		rv := fi.Pkg.TypesInfo.Defs[fi.Decl.Recv.List[0].Names[0]]
+		if rv == nil {
+			return nil, false
+		}
+		busy[fn] = true
+		defer delete(busy, fn)
+		seen := map[string]bool{}
+		var out []string
+		for _, f := range readsOf(fi.Pkg.TypesInfo, rv, fi.Decl.Body) {
+			if !seen[f] {
+				seen[f] = true
+				out = append(out, f)
+			}
+		}
+		sort.Strings(out)
+		memo[fn] = out
+		return out, true
+	}
 }
 
 type fieldSet map[string]bool
@@ -503,6 +578,7 @@ func printerOrderFollowsParserRule(c *Check, r *repoCtx, pkg *types.Package, fam
 // printerSiblingsConsultSameFields (C25, C23): a field that the reference printer of a struct consults on every path must be
 // consulted on every path by any other printer of that struct that prints it at all.
 func printerSiblingsConsultSameFields(c *Check, r *repoCtx, rule string, all bool, only func(pb *printerBody) bool) {
+	installMethodReads(r)
 	bodies := printerBodies(r, tl1Family)
 	ref := map[string]fieldSet{}
 	for _, pb := range bodies {
@@ -644,6 +720,105 @@ func printerConsultsWhatParserAlwaysFills(c *Check, r *repoCtx, pkg *types.Packa
 		must := mustRead(pb.fi.Pkg.TypesInfo, pb.v, pb.stmts)
 		for _, f := range sortedKeys(fills[pb.strct]) {
 			c.Ob(rule, pb.name+"."+f, must.has(f), r.pos(pb.fi.Decl.Pos()), fmt.Sprintf("%s fills %s.%s unconditionally; the printer consults it on every path: %v", fills[pb.strct][f], pb.strct, f, must.has(f)))
+		}
+	}
+}
+
+// printerSiblingsKeepGrouping: position-wise sibling agreement on grouping tokens. Where <Node>.StreamString prints a
+// field F of the node through printer method R (`f.FieldType.StreamString`) and another printer of the same node that
+// satisfies only() prints F through a different method P (`f.FieldType.streamtoCrc32`), every grouping token (a bracket
+// of any kind) that R's body emits must be emitted by P's body: text that is to be parsed back cannot group the
+// sub-terms at that position without them (`ps:(vector demo.point)` listed as `ps:vector demo.point` parses as two
+// fields). Positions where the reference itself uses a bracket-free printer (a function's result) impose nothing.
+func printerSiblingsKeepGrouping(c *Check, r *repoCtx, rule string, only func(pb *printerBody) bool) {
+	byObj := map[*types.Func]*FuncInfo{}
+	for _, fi := range r.funcs {
+		byObj[fi.Obj] = fi
+	}
+	brackets := func(fi *FuncInfo) map[string]bool {
+		out := map[string]bool{}
+		ast.Inspect(fi.Decl.Body, func(n ast.Node) bool {
+			lit, ok := n.(*ast.BasicLit)
+			if !ok || lit.Kind != token.STRING {
+				return true
+			}
+			s, err := strconv.Unquote(lit.Value)
+			if err != nil {
+				return true
+			}
+			for _, ch := range s {
+				if strings.ContainsRune("()[]{}<>", ch) {
+					out[string(ch)] = true
+				}
+			}
+			return true
+		})
+		return out
+	}
+	// calledOn: field of pb.v → printer methods called with that field as the receiver
+	calledOn := func(pb *printerBody) map[string][]*FuncInfo {
+		info := pb.fi.Pkg.TypesInfo
+		out := map[string][]*FuncInfo{}
+		for _, st := range pb.stmts {
+			ast.Inspect(st, func(n ast.Node) bool {
+				call, ok := n.(*ast.CallExpr)
+				if !ok {
+					return true
+				}
+				sel, ok := call.Fun.(*ast.SelectorExpr)
+				if !ok {
+					return true
+				}
+				fsel, ok := ast.Unparen(sel.X).(*ast.SelectorExpr)
+				if !ok {
+					return true
+				}
+				id, ok := ast.Unparen(fsel.X).(*ast.Ident)
+				if !ok || info.Uses[id] != pb.v {
+					return true
+				}
+				callee, _ := info.Uses[sel.Sel].(*types.Func)
+				if callee == nil || byObj[callee] == nil || byObj[callee].Decl.Body == nil || !tl1Family.isPrinter(callee) {
+					return true
+				}
+				out[fsel.Sel.Name] = append(out[fsel.Sel.Name], byObj[callee])
+				return true
+			})
+		}
+		return out
+	}
+	bodies := printerBodies(r, tl1Family)
+	ref := map[string]map[string][]*FuncInfo{}
+	for _, pb := range bodies {
+		if pb.isMeth && pb.fi.Obj.Name() == "StreamString" {
+			ref[pb.strct] = calledOn(pb)
+		}
+	}
+	for _, pb := range bodies {
+		if !pb.isMeth || pb.fi.Obj.Name() == "StreamString" || !only(pb) {
+			continue
+		}
+		rs, ok := ref[pb.strct]
+		if !ok {
+			continue
+		}
+		mine := calledOn(pb)
+		for _, f := range sortedKeys(mine) {
+			for _, p := range mine[f] {
+				for _, rf := range rs[f] {
+					if rf == p {
+						continue
+					}
+					want, have := brackets(rf), brackets(p)
+					var missing []string
+					for _, b := range sortedKeys(want) {
+						if !have[b] {
+							missing = append(missing, b)
+						}
+					}
+					c.Ob(rule, pb.name+"."+f+"/"+p.Name(), len(missing) == 0, r.pos(p.Decl.Pos()), fmt.Sprintf("%s.StreamString prints %s through %s, which emits the grouping tokens {%s}; this printer prints it through %s, which does not emit: %s", pb.strct, f, rf.Name(), strings.Join(sortedKeys(want), " "), p.Name(), orStr(strings.Join(missing, " "), "— none missing —")))
+				}
+			}
 		}
 	}
 }
